@@ -25,7 +25,8 @@ LEVEL_TEXT = ("Theorems in Coq (Properties/C14.v). In every state reachable from
               "(c14_timeout_only_after_full_period, c14_tick_keeps_unexpired); a leader change leaves records, sessions and shadow keys as they "
               "were and arms every session it finds with a full timeout (c14_leader_change_keeps_db); KeyToId inverts SessionKey on every "
               "offset-valued id and, PARTIAL, Initialize finds every session whose key holds decodable metadata "
-              "(c14_key_to_id_session_key, c14_leader_init_finds_session_partial); the end of a session is a single request "
+              "(c14_key_to_id_session_key, c14_leader_init_finds_session_partial); the sessions a new leader holds are read from the DB reached by its WHOLE log, whatever prefix it had applied as a "
+              "follower (c14_sessions_after_leader_change); the end of a session is a single request "
               "(c14_cleanup_write_is_one_request), which the sessions leg checks on the real leader's log.")
 LEVEL_NOTE = ("Trusted: Coq kernel, extraction (ExtrOcamlBasic), the Go harnesses (gating kv.Factory wrapper, canonicalisation). Partial where the "
               "property lives in the runtime: real timers and goroutine scheduling are not modelled (time.Timer never fires early is assumed); the "
@@ -46,7 +47,10 @@ RULE = ("db14: one case = a fresh real DB driven through 15-45 steps (session cr
         "every write; distinct by generator sub-seed; the three refutation witnesses run first. sessions: real leaderController + "
         "sessionManager per scenario (expiry without heartbeats, heartbeats then silence, leader change over the same WAL/DB, writes under "
         "dead sessions, takeovers, and session.delete() parked between its List and its Write on the CloseSession and the expiry path with 5 "
-        "kinds of interleaved traffic, sessions owning 0/1/999/1000/1001/1500 records ended by CloseSession and by expiry); every session "
+        "kinds of interleaved traffic, sessions owning 0/1/999/1000/1001/1500 records ended by CloseSession and by expiry, and 12 leader changes per run "
+        "on a node whose DB lags its log: a real follower controller fed a generated log of creations / ephemeral puts / takeovers / closes "
+        "through Replicate with commit offsets -1..n-2, then NewTerm + BecomeLeader with rf 1 and rf 2 (acking in-process follower), checked "
+        "against the fold of the whole log: KeepAlive, expiry with records, no resurrection); every session "
         "end is monitored on the leader's WAL (one log entry deleting all owned records, the session key and the shadow range) and a real new "
         "leader is started from the log prefix ending at each entry of the cleanup (alive => all records, gone => none); distinct by scenario "
         "parameters")
